@@ -7,6 +7,8 @@ import (
 
 	"github.com/bradenaw/juniper/iterator"
 	"github.com/bradenaw/juniper/stream"
+
+	"verif/vkit"
 )
 
 // ---------------------------------------------------------------------------------------------
@@ -20,14 +22,18 @@ const (
 	layFlatten                     // stream.Flatten of a probe stream of probe streams
 	layFlattenSlices               // stream.FlattenSlices of a probe stream of slices
 	layFromIter                    // stream.FromIterator(iterator.Slice(..)): cannot fail by itself
+	// stream.Join whose inputs are a mix of probe streams (P), already filled and closed stream.Pipe
+	// receivers (p) and stream.Merge of one fault-free stream (m): real library streams whose Close
+	// is not idempotent, so closing an input twice panics.
+	layJoinLib
 )
 
-var layoutNames = [...]string{"", "Join:", "Flatten:", "FlattenSlices:", "FromIterator:"}
+var layoutNames = [...]string{"", "Join:", "Flatten:", "FlattenSlices:", "FromIterator:", "Join"}
 
 func copyInts(a []int) []int { return append([]int(nil), a...) }
 
 // buildSource builds the source stream for the layout over parts and registers its probes in e.
-func buildSource(e *env, lay layout, parts [][]int) stream.Stream[int] {
+func buildSource(e *env, lay layout, parts [][]int, kinds string) stream.Stream[int] {
 	all := refConcat(parts)
 	upTo := func(j, p int) []int { // parts before j, plus the first p items of part j
 		out := refConcat(parts[:j])
@@ -59,6 +65,27 @@ func buildSource(e *env, lay layout, parts [][]int) stream.Stream[int] {
 		return stream.FlattenSlices[int](newSrc(e, "slices", items, false, func(q int) []int { return refConcat(parts[:q]) }))
 	case layFromIter:
 		return stream.FromIterator(iterator.Slice(copyInts(all)))
+	case layJoinLib:
+		var ss []stream.Stream[int]
+		for j := range parts {
+			j := j
+			switch kinds[j] {
+			case 'P':
+				ss = append(ss, newSrc(e, fmt.Sprintf("part%d", j), copyInts(parts[j]), true, func(p int) []int { return upTo(j, p) }))
+			case 'p':
+				snd, rcv := stream.Pipe[int](len(parts[j]) + 1)
+				for _, x := range parts[j] {
+					_ = snd.Send(context.Background(), x)
+				}
+				snd.Close(nil)
+				ss = append(ss, rcv)
+			case 'm':
+				in := vkit.NewProbeStream(fmt.Sprintf("merged%d", j), copyInts(parts[j]))
+				in.HonourCtx = true
+				ss = append(ss, stream.Merge[int](in))
+			}
+		}
+		return stream.Join(ss...)
 	}
 	panic("bad layout")
 }
@@ -383,16 +410,26 @@ func (t termSpec) refReduceResult(in []int) (vals []int, errKind string) {
 // Subjects of the caller-goroutine part
 
 type subjectSpec struct {
-	lay    layout
-	nparts int
-	unique bool // value mode
-	stages []stageSpec
-	term   termSpec
+	lay   layout
+	kinds string // layJoinLib: kind of each input
+	// boundary: also enumerate every vector of input lengths in {0,1,2}^nparts (empty inputs in the
+	// middle, so that one Next crosses several input boundaries); boundaryOnly: only those.
+	boundary     bool
+	boundaryOnly bool
+	nparts       int
+	unique       bool // value mode
+	stages       []stageSpec
+	term         termSpec
 }
 
 func (sp *subjectSpec) name() string {
 	var b strings.Builder
 	b.WriteString(layoutNames[sp.lay])
+	if sp.lay == layJoinLib {
+		b.WriteString("[" + sp.kinds + "]:")
+	} else if sp.boundary {
+		b.WriteString(fmt.Sprintf("%d:", sp.nparts))
+	}
 	for _, st := range sp.stages {
 		b.WriteString(st.String())
 		b.WriteString(">")
@@ -414,7 +451,7 @@ func (sp *subjectSpec) refPipeline(in []int) []int {
 }
 
 func (sp *subjectSpec) build(e *env, parts [][]int) stream.Stream[int] {
-	s := buildSource(e, sp.lay, parts)
+	s := buildSource(e, sp.lay, parts, sp.kinds)
 	for k, st := range sp.stages {
 		s = st.build(e, k, s)
 	}
@@ -522,6 +559,21 @@ func seqSubjects() []*subjectSpec {
 		S(layJoin, 2, tm("collect"), st("runsFlat")),
 		S(layFlatten, 2, tm("reduce")),
 		S(layFromIter, 1, tm("collect"), st("map")),
+	}
+	// Combinators that walk a list of inner streams, with faults exactly at the inner-stream
+	// boundaries (see boundary above), and with real library streams as inputs.
+	for _, sp := range []*subjectSpec{
+		S(layJoin, 4, tm("ints")),
+		S(layFlatten, 4, tm("ints")),
+		S(layFlattenSlices, 4, tm("ints")),
+	} {
+		sp.boundary = true
+		subs = append(subs, sp)
+	}
+	for _, kinds := range []string{"PpmP", "pPmP", "mPpP"} {
+		sp := S(layJoinLib, 4, tm("ints"))
+		sp.kinds, sp.boundary, sp.boundaryOnly = kinds, true, true
+		subs = append(subs, sp)
 	}
 	// Compact proper (==) needs duplicate values.
 	for _, sp := range []*subjectSpec{
